@@ -63,6 +63,9 @@ def _shared_families(prog: Program) -> dict[str, str]:
     return fam
 
 
+INPLACE_FUNCS = {"iconcat", "iadd", "ior", "iand", "imul", "isub", "ixor", "imod", "ifloordiv", "itruediv", "ilshift", "irshift", "ipow", "imatmul", "setitem", "delitem", "heappush", "heappop", "heapify", "insort", "insort_left", "insort_right", "shuffle"}
+
+
 def _stores(mod: Module):
     """(stmt, target expr, kind) for every attribute/subscript store, delete and in-place mutator call."""
     for n in ast.walk(mod.tree):
@@ -81,6 +84,14 @@ def _stores(mod: Module):
                     yield n, x, "store"
         if isinstance(n, ast.Call) and isinstance(n.func, ast.Attribute) and n.func.attr in MUTATORS:
             yield n, n.func.value, "mutate"
+        # in-place operators called as functions (operator.iconcat(a, b) extends a), also through reduce(): without an initial value the
+        # accumulator IS the first element of the iterable - reduce(iconcat, lists) extends lists[0]
+        if isinstance(n, ast.Call):
+            fname = (dotted(n.func) or "").split(".")[-1]
+            if fname in INPLACE_FUNCS and n.args:
+                yield n, n.args[0], "mutate"
+            elif fname == "reduce" and len(n.args) >= 2 and (dotted(n.args[0]) or "").split(".")[-1] in INPLACE_FUNCS:
+                yield n, (n.args[2] if len(n.args) >= 3 else n.args[1]), "mutate"
 
 
 def run(prog: Program, res: Result) -> None:  # noqa: PLR0912, PLR0915
